@@ -549,6 +549,10 @@ def lark_corpus():
     c["ignore_star"] = ('start: A*\nA: "a" | "b"\nWS: /[ ]+/\n%ignore WS\n', "ab ", "ab x")
     # a terminal that is both ignored and used explicitly in a rule (seeded change C19-4)
     c["ignored_and_explicit"] = ('start: "a" (WS "b")* C\nC: /c+/\nWS: " "\n%ignore WS\n', "abc ", "abc x")
+    # regex terminals with nested repetition: a state inside the inner loop reaches acceptance only back through a lower-numbered
+    # state (liveness must be a fixed point, not one sweep) - seeded changes C18-3 / C19-5
+    c["nested_repetition"] = ('start: T\nT: /((ab)*c)*d/\n', "abcd", "abcd")
+    c["block_comment"] = ('start: "x" COMMENT "y"\nCOMMENT: /\\/\\*([^*]|\\*[^\\/])*\\*\\//\n', "/*axy", "/*axy")
     c["neg_class_charset"] = ('start: A "!"\nA: /[^a!]+/\n', "ab!", "ab!c")
     c["dot_charset"] = ('start: /./ "a"\n', "ab\n", "ab\nc")
     c["dot_core"] = ('start: /.b?/\n', "ab\n", "core")
